@@ -31,4 +31,39 @@ J('A.strcpy_s.arena', CORE_PROPS, 'A', 'contracts/str/strcpy_s.spec.c',
   timeout=1200, mem_gb=6,
   note='layout A: one arena, disjoint extents, both pointer orders; destbos unknown; sizes symbolic up to RSIZE_MAX_STR')
 
+# ---- engine B: copy / concatenate family against the reference model in harness/copyfam.c
+STR_COMMON = ['src/str/safe_str_constraint.c', 'src/str/strnlen_s.c', 'src/ignore_handler_s.c']
+WCS_COMMON = STR_COMMON + ['src/wchar/wcsnlen_s.c']
+COPYFAM = [
+    (1, 'strcpy_s', 'src/str/strcpy_s.c', '_strcpy_s_chk'),
+    (2, 'strcat_s', 'src/str/strcat_s.c', '_strcat_s_chk'),
+    (3, 'strncpy_s', 'src/str/strncpy_s.c', '_strncpy_s_chk'),
+    (4, 'strncat_s', 'src/str/strncat_s.c', '_strncat_s_chk'),
+    (5, 'stpcpy_s', 'src/extstr/stpcpy_s.c', '_stpcpy_s_chk'),
+    (6, 'stpncpy_s', 'src/extstr/stpncpy_s.c', '_stpncpy_s_chk'),
+]
+WCOPYFAM = [
+    (1, 'wcscpy_s', 'src/wchar/wcscpy_s.c', '_wcscpy_s_chk'),
+    (2, 'wcscat_s', 'src/wchar/wcscat_s.c', '_wcscat_s_chk'),
+    (3, 'wcsncpy_s', 'src/wchar/wcsncpy_s.c', '_wcsncpy_s_chk'),
+    (4, 'wcsncat_s', 'src/wchar/wcsncat_s.c', '_wcsncat_s_chk'),
+]
+COPY_PROPS = ['C01', 'C02', 'C03', 'C04', 'C05', 'C06', 'C07', 'C08']
+for fn, nm, path, sym in COPYFAM:
+    for lay in (0, 1):
+        J('B.%s.L%d' % (nm, lay), COPY_PROPS, 'B', 'harness/copyfam.c', sources=[path] + STR_COMMON,
+          defines=['FN=%d' % fn, 'N=4', 'LAYOUT=%d' % lay], unwind=12, object_bits=10, replay=True,
+          functions=[sym], bound='extents <= 4 elements, arena <= 10 elements, layout %s' % ('one arena (all placements)' if lay == 0 else 'separate exact-fit objects'),
+          timeout=900, mem_gb=8)
+for fn, nm, path, sym in WCOPYFAM:
+    for lay in (0, 1):
+        J('B.%s.L%d' % (nm, lay), COPY_PROPS, 'B', 'harness/copyfam.c', sources=[path] + WCS_COMMON,
+          defines=['FN=%d' % fn, 'N=2', 'WIDE', 'LAYOUT=%d' % lay], unwind=8, object_bits=10, replay=True,
+          functions=[sym], bound='extents <= 2 wide chars, arena <= 6, layout %d' % lay,
+          stubs=['stubs/memset_model.c'], timeout=900, mem_gb=8)
+        J('B.%s.L%d.n3' % (nm, lay), COPY_PROPS, 'B', 'harness/copyfam.c', sources=[path] + WCS_COMMON,
+          defines=['FN=%d' % fn, 'N=3', 'WIDE', 'LAYOUT=%d' % lay], unwind=10, object_bits=10, replay=True,
+          functions=[sym], bound='extents <= 3 wide chars, arena <= 8, layout %d' % lay,
+          stubs=['stubs/memset_model.c'], timeout=3000, mem_gb=10, tiers=('thorough',))
+
 BY_NAME = {j.name: j for j in JOBS}
